@@ -997,6 +997,27 @@ def j3(cx):
         cx.need(n_words >= 5, f"[J3] only {n_words} words of the original {nm} found in the abstract memory")
         cx.check(bad == 0, None, construct=f"{nm}: T(json form) writes {n_words} words identical to the original's", detail="constructing the type from an object's JSON form reproduces the object",
                  bad_detail=f"{bad} of {n_words} words differ, e.g. at +{first[0] if first else '?'}: original {first[1] if first else '?'!r}, rebuilt {first[2] if first else '?'!r}", anchor="struct::Struct._to_json" if nm == "struct" else "array::Array._to_json", sub="roundtrip")
+    # a struct with an array of MORE THAN ONE axis (a reference-free struct of the grammar): the form holds every item, as
+    # nested lists with one level per axis -- what the constructor takes  (PF63: only the first column was emitted)
+    out2 = {}
+
+    def thunk2():
+        sc = I.global_lookup("scalar", "Float64")
+        for order, nm in (((0, 1), "C"), ((1, 0), "F")):
+            A23 = lab.array("Arr2x3Float64", (2, 3), order, sc)
+            M = lab.struct("M" + nm, [("k", sc), ("m", A23)])
+            m1 = I.call(M, [], {"k": V("mk"), "m": lab.value("m", [2, 3], elem=lambda k: V(f"m{k[0]}{k[1]}")), "_buffer": W.buffer})
+            out2[nm] = I.call(I.getattr(m1, "_to_json"), [], {})
+        return None
+
+    res2 = I.explore(thunk2, max_paths=8)
+    if len(res2) != 1 or res2[0]["exc"] is not None:
+        e = res2[0]["exc"]
+        raise AnalysisError(f"[J3] the JSON form of a struct with a 2-d array cannot be evaluated: {e.etype if e else 'fork'}: {e.msg if e else res2[0]['conds']}")
+    want2 = {"k": V("mk"), "m": [[V(f"m{i}{j_}") for j_ in range(3)] for i in range(2)]}
+    for nm in ("C", "F"):
+        cx.check(same(out2[nm], want2), None, construct=f"Struct._to_json with a 2-d array field ({nm} order) -> {str(out2[nm])[:120]}", detail="every item, as nested lists with one level per axis (index order)",
+                 bad_detail=f"the JSON form is {str(out2[nm])[:160]}; the array holds {str(want2['m'])[:120]}: items are lost / misplaced, constructing the type from the form cannot reproduce the object", anchor="array::Array._to_json", sub="form.2d")
     uj = out["ujson"]
     ok = isinstance(uj, tuple) and len(uj) == 2 and uj[0] == "T2" and same(uj[1], {"w": V("uw")})
     cx.check(ok, None, construct=f"UnionRef._to_json -> {uj}", detail="(member class name, member form): the (str, data) arm of the union writer consumes it (R14)", bad_detail=f"UnionRef._to_json gives {uj}, expected ('T2', {{'w': ...}})", anchor="ref::UnionRef._to_json", sub="union")
